@@ -116,6 +116,12 @@ extern uint64_t vk_ncalls;
 #define AP(p) ((uint64_t)(uintptr_t)(p))
 #define A64(x) ((uint64_t)(x))
 
+/* ---------- secret scan of captured registers / dead stack (C14) ---------- */
+void vk_sec_reset(void);
+void vk_sec_add(const uint8_t *p16, const char *name, int idx);
+void vk_sec_add_key(const uint8_t *key, int keybits);   /* raw key halves + all enc/dec round keys */
+void vk_sec_scan(const char *fn, const char *shape);     /* needs VC_STACK|VC_CAPVEC call mode */
+
 /* ---------- virtual CPU ---------- */
 extern uint32_t vcpu_mode, vcpu_l1[4], vcpu_l7[4];
 extern uint64_t vcpu_xcr0, vcpu_ncpuid, vcpu_nxgetbv, vcpu_xgetbv_ud;
